@@ -112,6 +112,21 @@ let program_of (c : sx list) : program =
 
 (* ---------- tables ---------- *)
 let arr_of (x : sx) : arr = arr_of_list (List.map (fun v -> z_of_int (ai v)) (items x))
+let rtab_of (t : sx list) : rtab =
+  let p name = ai (List.hd (field name t)) in
+  let pb name = p name <> 0 in
+  let a name = arr_of (List.hd (field name t)) in
+  let ao name = match field_opt name t with Some [x] -> Some (arr_of x) | _ -> None in
+  let empty = arr_of_list [] in
+  let tb = { c_accept = a "accept";
+             c_ec = (match ao "ec" with Some x -> x | None -> empty);
+             c_meta = (match ao "meta" with Some x -> x | None -> empty);
+             c_base = a "base"; c_def = a "def"; c_nxt = a "nxt"; c_chk = a "chk";
+             c_useecs = pb "useecs"; c_usemecs = pb "usemecs";
+             c_lastdfa = z_of_int (p "lastdfa"); c_jambase = z_of_int (p "jambase");
+             c_nul_ec = z_of_int (p "nul_ec"); c_interactive = pb "interactive"; c_bol = pb "bol" } in
+  { r_c = tb; r_acclist = a "acclist" }
+
 let view_of (t : sx list) : view * (unit -> string option) =
   let kind = atom (List.hd (field "kind" t)) in
   let p name = ai (List.hd (field name t)) in
@@ -139,6 +154,7 @@ let view_of (t : sx list) : view * (unit -> string option) =
         if !bad = None && not (frow_ok tb (z_of_int 0) (z_of_int s)) then bad := Some (Printf.sprintf "row %d has a non-positive entry different from -%d" s s)
       done; !bad in
     (fview tb, wf)
+  | "reject" -> (rview (rtab_of t), fun () -> None)
   | "fullspd" ->
     let tb = { s_verify = a "verify"; s_nxt = a "nxt"; s_starts = a "starts";
                s_ec = ao "ec"; s_nul_ec = z_of_int (p "nul_ec"); s_bol = pb "bol" } in
@@ -151,7 +167,8 @@ let ist_str = function Bad -> "Bad" | Jam -> "Jam" | St s -> string_of_int (int_
 exception Mismatch of int list * string
 exception OutOfFuel
 
-let search (v : view) (al : byte list) (s0 : sstate) (i0 : ist) (fuel : int) :
+let search_gen (stepf : ist -> byte -> ist) (okf : sstate -> ist -> bool)
+    (descr : sstate -> ist -> string) (al : byte list) (s0 : sstate) (i0 : ist) (fuel : int) :
   (sstate, ist) relmap * int =
   (* key -> (ist, list of spec states) *)
   let tbl : (int, ist * sstate list ref) Hashtbl.t = Hashtbl.create 997 in
@@ -171,17 +188,33 @@ let search (v : view) (al : byte list) (s0 : sstate) (i0 : ist) (fuel : int) :
   add s0 i0 [];
   while not (Queue.is_empty q) do
     let (s, i, path) = Queue.pop q in
-    if not (ok v al s i) then begin
-      let sob = String.concat "," (List.map (fun x -> string_of_int (int_of_n x)) (sobs s)) in
-      let iacc = match v.v_acc i with Some z -> string_of_int (int_of_z z) | None -> "undef" in
-      raise (Mismatch (List.rev path,
-                       Printf.sprintf "impl_state=%s impl_acc=%s impl_stop=%b spec_acc=[%s] spec_dead=%b"
-                         (ist_str i) iacc (v.v_stop i) sob (sdead al s)))
-    end;
-    List.iter (fun b -> add (sstep s b) (v.v_step i b) (int_of_n b :: path)) al
+    if not (okf s i) then raise (Mismatch (List.rev path, descr s i));
+    List.iter (fun b -> add (sstep s b) (stepf i b) (int_of_n b :: path)) al
   done;
   let m = Hashtbl.fold (fun k (i, c) acc -> PositiveMap.add (pos_of_int k) (i, !c) acc) tbl PositiveMap.empty in
   (m, !count)
+
+let search (v : view) (al : byte list) (s0 : sstate) (i0 : ist) (fuel : int) =
+  let descr s i =
+    let sob = String.concat "," (List.map (fun x -> string_of_int (int_of_n x)) (sobs s)) in
+    let iacc = match v.v_acc i with Some z -> string_of_int (int_of_z z) | None -> "undef" in
+    Printf.sprintf "impl_state=%s impl_acc=%s impl_stop=%b spec_acc=[%s] spec_dead=%b"
+      (ist_str i) iacc (v.v_stop i) sob (sdead al s) in
+  search_gen v.v_step (ok v al) descr al s0 i0 fuel
+
+let policy_of = function
+  | L [r; A "never"] -> (ai r, RejNever)
+  | L [r; A "always"] -> (ai r, RejAlways)
+  | L [r; A "lengt"; n] -> (ai r, RejLenGt (nat_of_int (ai n)))
+  | L [r; A "first"; n] -> (ai r, RejFirst (nat_of_int (ai n)))
+  | _ -> failwith "policy"
+
+let adj_of (l : sx list) : n -> (bool * nat) option =
+  let tbl = List.map (function
+      | L [r; A "head"; k] -> (ai r, (true, nat_of_int (ai k)))
+      | L [r; A "tail"; k] -> (ai r, (false, nat_of_int (ai k)))
+      | _ -> failwith "adj") l in
+  fun r -> List.assoc_opt (int_of_n r) tbl
 
 let bytes_of (x : sx) : byte list = List.map (fun v -> n_of_int (ai v)) (items x)
 let toks_str (l : (n * nat) list) =
@@ -198,6 +231,8 @@ let () =
   let prog = program_of c in
   let al = alphabet prog.p_csize in
   let views = List.filter_map (function L (A "tables" :: t) -> Some t | _ -> None) c in
+  let rtabs = List.filter_map (fun t -> if atom (List.hd (field "kind" t)) = "reject"
+                                then Some (atom (List.hd (field "name" t)), rtab_of t) else None) views in
   let views = List.map (fun t -> (atom (List.hd (field "name" t)), view_of t)) views in
   let queries = items (List.hd (field "queries" c)) in
   List.iter (fun q ->
@@ -222,6 +257,44 @@ let () =
              (String.concat " " (List.map string_of_int path)) info
          | OutOfFuel ->
            Printf.printf "lockstep %s %d %d INCONCLUSIVE fuel\n" vname sc (if bol then 1 else 0))
+      | L [A "lockstep_r"; A vname; L vars; sc; bol; fuel] ->
+        let t = List.assoc vname rtabs in
+        let vars = List.map (fun v -> n_of_int (ai v)) vars in
+        let sc = ai sc and bol = ab bol in
+        let s0 = spec_start_r prog vars (n_of_int sc) bol in
+        let i0 = St (start_of t.r_c.c_bol (z_of_int (sc - 1)) bol) in
+        let descr s i =
+          let sob = String.concat "," (List.map (fun x -> string_of_int (int_of_n x)) (sobs s)) in
+          let il = match raccl t i with Some l -> String.concat "," (List.map (fun z -> string_of_int (int_of_z z)) l) | None -> "undef" in
+          Printf.sprintf "impl_state=%s impl_acclist=[%s] impl_stop=%b spec_acc=[%s] spec_dead=%b"
+            (ist_str i) il (cstop t.r_c i) sob (sdead al s) in
+        (try
+           let (m, cnt) = search_gen (cstep t.r_c) (ok_r t vars al) descr al s0 i0 (ai fuel) in
+           let verdict = check_rview t vars al m s0 i0 in
+           Printf.printf "lockstep %s %d %d %s pairs=%d\n" vname sc (if bol then 1 else 0)
+             (if verdict then "OK" else "CHECK-FAILED") cnt
+         with
+         | Mismatch (path, info) ->
+           Printf.printf "lockstep %s %d %d MISMATCH input=[%s] %s\n" vname sc (if bol then 1 else 0)
+             (String.concat " " (List.map string_of_int path)) info
+         | OutOfFuel ->
+           Printf.printf "lockstep %s %d %d INCONCLUSIVE fuel\n" vname sc (if bol then 1 else 0))
+      | L [A "rejtokens"; A which; sc; bol; inp; L pols] ->
+        let w = bytes_of inp in
+        let pols = List.map policy_of pols in
+        let pol r = match List.assoc_opt (int_of_n r) pols with Some p -> p | None -> RejNever in
+        let fuel = nat_of_int (List.length w + 1) in
+        let t = if which = "spec" then spec_rej_tokens fuel prog (n_of_int (ai sc)) pol (ab bol) w
+          else view_rej_tokens fuel (List.assoc which rtabs) (n_of_int (ai sc)) pol (ab bol) w in
+        Printf.printf "rejtokens %s %s\n" which (toks_str t)
+      | L [A "viewtokens_tc"; A vname; sc; bol; inp; L adj] ->
+        let w = bytes_of inp in
+        let fuel = nat_of_int (List.length w + 1) in
+        let t = match List.assoc_opt vname rtabs with
+          | Some rt -> view_rtokens_tc fuel rt (adj_of adj) (n_of_int (ai sc)) (ab bol) w
+          | None -> let (v, _) = List.assoc vname views in
+            view_tokens_tc fuel v (adj_of adj) (n_of_int (ai sc)) (ab bol) w in
+        Printf.printf "viewtokens %s %s\n" vname (toks_str t)
       | L [A "spectokens"; sc; bol; inp] ->
         let w = bytes_of inp in
         let t = spec_tokens (nat_of_int (List.length w + 1)) prog (n_of_int (ai sc)) (ab bol) w in
